@@ -2,6 +2,7 @@ package core
 
 import (
 	"encoding/json"
+	"strings"
 
 	"github.com/jsightapi/jsight-schema-core/fs"
 
@@ -64,3 +65,73 @@ func vHash(b []byte) int {
 }
 
 func init() { vRegister("HCorpus", HCorpus) }
+
+// HCorpusHole (C01, C04, C17): a file of the repository's own corpus (/repo/testdata, 1108
+// projects written by the maintainers: every feature of the language, the schema rules and
+// the negative cases) with k symbolic bytes substituted at a cut (k = 0: the file as it is).
+// Whatever the bytes: the build terminates without a panic (C01); an ACCEPTED project
+// serialises to JDoc Exchange JSON of the right shape (C04) and its OpenAPI export is an
+// error value or a sound document, never a panic (C17). Files that the project INCLUDEs are
+// read from the real file system; an INCLUDE whose name holds a symbolic byte resolves to
+// nothing.
+func HCorpusHole() {
+	i := vParam("i", 0)
+	if hi := vParam("hi", -1); hi >= 0 {
+		i = vInt("i", vParam("lo", 0), hi) // every file of the window: one path each
+	}
+	name, content := vCorpusFile(i)
+	cut, k := vParam("cut", 0), vParam("k", 2)
+	if cut > len(content) {
+		cut = len(content)
+	}
+	data := append([]byte(nil), content[:cut]...)
+	data = append(data, vBytes("d", k)...)
+	if cut+k < len(content) {
+		data = append(data, content[cut+k:]...)
+	}
+	c := NewJApiCore(fs.NewFile(name, data))
+	je := c.BuildCatalog()
+	if je != nil {
+		vAssert(je.File != nil && int(je.Index) <= je.File.Content().Len(), "c01-error-location-outside-file")
+		vReach("rejected")
+		vObserve("rejected")
+		return
+	}
+	which := vParam("check", 0)
+	if which == 0 || which == 4 {
+		for _, l := range vEmit(c) {
+			vAssert(!strings.Contains(l, "error:"), "c04-serialisation-step-fails-for-an-accepted-document")
+			vAssert(!strings.Contains(l, "ILL-TYPED"), "c04-content-node-typed-inconsistently")
+		}
+		vCheckJSON(c)
+	}
+	if which == 0 || which == 17 {
+		vExportNoPanic(c)
+		vCheckOpenAPIJSON(c)
+	}
+	if which == 16 {
+		// C16: the five accessors, three rounds: each returns the bytes of its first call
+		var first [5]string
+		for round := 0; round < 3; round++ {
+			for w := 0; w <= 4; w++ {
+				got := ""
+				if w == 4 {
+					if c.catalog.Info != nil {
+						got = c.catalog.Info.Title
+					}
+				} else {
+					got = vSerialise(c, w)
+				}
+				if round == 0 {
+					first[w] = got
+				} else {
+					vAssert(got == first[w], "c16-accessor-returns-other-bytes-than-before")
+				}
+			}
+		}
+	}
+	vReach("accepted")
+	vObserve("accepted")
+}
+
+func init() { vRegister("HCorpusHole", HCorpusHole) }
